@@ -41,6 +41,127 @@ pub struct Case {
     /// service part is not run.
     #[serde(default)]
     pub wire: Option<WireReq>,
+    #[serde(default)]
+    pub pipe: Option<Pipe>,
+}
+
+/// Service and handler composed: the NODES packets a real service emits for a FINDNODE are handed to a
+/// real handler (which holds a session with the requester); every one of them must appear on the wire.
+#[derive(Clone, Debug, PartialEq, Eq, Hash, Serialize, Deserialize)]
+pub struct Pipe {
+    /// sizes (100..=300 bytes) of the records in the answering node's table
+    pub sizes: Vec<u16>,
+}
+
+async fn run_pipe(c: &Pipe, rep: &mut CaseReport) -> Option<(String, String)> {
+    use crate::engines::wire::{AppMode, Body, Know, Op, WireConfig, World};
+    use crate::engines::wire_interp::act;
+    reset_globals();
+    rep.class("pipe-companion");
+    // the answering node's service
+    let mut s = Svc::new(SvcConfig { key_idx: 0, ..Default::default() }).await;
+    let mut stored = 0;
+    for (j, size) in c.sizes.iter().take(16).enumerate() {
+        if s.d.add_enr(keys::padded_record(1 + j as u32, 1, (*size).clamp(100, 300))).is_ok() {
+            stored += 1;
+        }
+    }
+    // the answering node's handler V with a session to the requester, whose FINDNODE V's application holds
+    let mut resp_mode = vec![AppMode::Immediate; 4];
+    resp_mode[0] = AppMode::Manual;
+    let cfg = WireConfig {
+        n_peers: 1,
+        retries: 1,
+        filter: false,
+        wru_mode: vec![AppMode::Immediate; 4],
+        wru_know: vec![Know::Current; 4],
+        resp_mode,
+        nodes_packets: 1,
+        seqs: vec![1; 4],
+        nat_peers: vec![],
+        nat_kind: 0,
+        dual_records: false,
+        foreign_enr_answer: vec![],
+        v_session_timeout_ms: None,
+        v_session_capacity: None,
+    };
+    let mut w = World::new(cfg).await;
+    act(&mut w, &Op::Submit { from: 1, to: 0, body: Body::FindNode(1), with_record: true });
+    w.settle().await;
+    w.step += 1;
+    let mut guard = 0;
+    while !w.pool.is_empty() && guard < 60 {
+        guard += 1;
+        let idx = w.pool.remove(0);
+        w.deliver_logged(idx);
+        w.settle().await;
+        w.step += 1;
+    }
+    let Some((addr, req)) = std::mem::take(&mut w.nodes[0].held_req).into_iter().next() else {
+        return None;
+    };
+    // the service answers a request with that id for every distance its entries can have
+    s.take_outbox();
+    s.inject(HandlerOut::Request(addr.clone(), Box::new(Request { id: req.id.clone(), body: RequestBody::FindNode { distances: (225..=256u64).collect() } }))).await;
+    let answers: Vec<Response> = s
+        .take_outbox()
+        .into_iter()
+        .filter_map(|m| match m {
+            HandlerIn::Response(_, r) if r.id == req.id => Some(*r),
+            _ => None,
+        })
+        .collect();
+    s.d.shutdown();
+    let log0 = w.log.len();
+    let mut fullest = 0usize;
+    for r in &answers {
+        if let ResponseBody::Nodes { nodes, .. } = &r.body {
+            fullest = fullest.max(nodes.iter().map(|n| n.size()).sum());
+        }
+        let _ = w.nodes[0].vh.to_handler.send(HandlerIn::Response(addr.clone(), Box::new(r.clone())));
+    }
+    w.settle().await;
+    w.step += 1;
+    rep.count("pipe_packets", answers.len() as u64);
+    rep.count("pipe_records_stored", stored);
+    if fullest >= 1150 {
+        rep.class("pipe-companion/a-packet-with>=1150-bytes-of-records");
+        rep.nontrivial = true;
+    }
+    let mut on_wire: Vec<Response> = Vec::new();
+    for d in &w.log[log0..] {
+        if d.from_node != Some(0) {
+            continue;
+        }
+        if let Some((Message::Response(r), _)) = crate::props::c04::decrypt(d, &w.keys_seen[0]) {
+            if r.id == req.id && matches!(r.body, ResponseBody::Nodes { .. }) {
+                if d.bytes.len() > 1280 {
+                    return Some(("nodes/datagram-too-large".into(), format!("a NODES packet of the service left the handler as a datagram of {} bytes", d.bytes.len())));
+                }
+                on_wire.push(r);
+            }
+        }
+    }
+    for r in &answers {
+        let n = on_wire.iter().filter(|o| *o == r).count();
+        if n != 1 {
+            let (cnt, bytes) = match &r.body {
+                ResponseBody::Nodes { nodes, .. } => (nodes.len(), nodes.iter().map(|n| n.size()).sum::<usize>()),
+                _ => (0, 0),
+            };
+            return Some((
+                if n == 0 { "nodes/packet-of-the-answer-never-sent".to_string() } else { "nodes/packet-of-the-answer-sent-twice".to_string() },
+                format!("the service answered a FINDNODE with {} NODES packets (each announcing that total); the packet with {cnt} records ({bytes} bytes of records) went onto the wire {n} times although the handler holds a session with the requester", answers.len()),
+            ));
+        }
+    }
+    if on_wire.len() != answers.len() {
+        return Some(("nodes/packets-on-the-wire-differ-from-the-answer".into(), format!("{} NODES packets were handed to the handler, {} with that request id went onto the wire", answers.len(), on_wire.len())));
+    }
+    if let Some(p) = crate::runner::take_panic() {
+        return Some((format!("panic-in-task/{}", p.split(':').take(2).collect::<Vec<_>>().join(":")), p));
+    }
+    None
 }
 
 #[derive(Clone, Debug, PartialEq, Eq, Hash, Serialize, Deserialize)]
@@ -372,7 +493,14 @@ fn ds_strategy() -> BoxedStrategy<Vec<u64>> {
         6 => proptest::collection::vec(d.clone(), 0..6),
         // the lists lookups generate: d, d+1, d-1
         3 => (251u64..=256).prop_map(|x| vec![x, (x + 1).min(256), x - 1]).prop_map(|mut v| { v.dedup(); v }),
-        1 => proptest::collection::vec(d, 6..400),
+        1 => proptest::collection::vec(d.clone(), 6..400),
+        // long lists of repeats, the distances that matter at the end (up to what a datagram carries:
+        // ~1150 one-byte distances or ~570 two-byte ones)
+        1 => (prop_oneof![(1u64..128, 200usize..1150), (128u64..=256, 200usize..570)], proptest::collection::vec(d, 1..4)).prop_map(|((filler, n), tail)| {
+            let mut v = vec![filler; n];
+            v.extend(tail);
+            v
+        }),
     ]
     .boxed()
 }
@@ -401,7 +529,7 @@ impl Property for C14 {
             prop_oneof![3 => Just(None), 1 => (1u8..=20).prop_map(Some)],
             proptest::collection::vec(step, 1..8),
         )
-            .prop_map(|(dual, entries, max_nodes, steps)| Case { dual, entries, max_nodes, steps, wire: None });
+            .prop_map(|(dual, entries, max_nodes, steps)| Case { dual, entries, max_nodes, steps, wire: None, pipe: None });
         // a large configured maximum and a large table: answers of many packets
         let big_step = (id(), req_strategy(), any::<bool>()).prop_map(|(id, requester, all)| Step::FindNode { ds: if all { (240..=256u64).collect() } else { vec![256, 255, 254, 253, 252] }, id, requester });
         let big = (
@@ -410,12 +538,21 @@ impl Property for C14 {
             (46u8..=120).prop_map(Some),
             proptest::collection::vec(big_step, 1..3),
         )
-            .prop_map(|(dual, entries, max_nodes, steps)| Case { dual, entries, max_nodes, steps, wire: None });
-        let wire = (0u8..4, 0u8..3, 0u8..3, 1u8..=3).prop_map(|(nat_kind, know, body, requests)| Case { dual: false, entries: vec![], max_nodes: None, steps: vec![], wire: Some(WireReq { nat_kind, know, body, requests }) });
-        prop_oneof![60 => ordinary, 2 => big, 1 => wire].boxed()
+            .prop_map(|(dual, entries, max_nodes, steps)| Case { dual, entries, max_nodes, steps, wire: None, pipe: None });
+        let wire = (0u8..4, 0u8..3, 0u8..3, 1u8..=3).prop_map(|(nat_kind, know, body, requests)| Case { dual: false, entries: vec![], max_nodes: None, steps: vec![], wire: Some(WireReq { nat_kind, know, body, requests }), pipe: None });
+        // record sizes that let the service's packing end a packet anywhere up to its bound of 1175 bytes
+        let size = prop_oneof![3 => 100u16..=300, 2 => 286u16..=294, 1 => 230u16..=236, 1 => 191u16..=196, 1 => 164u16..=168];
+        let pipe = proptest::collection::vec(size, 4..=16).prop_map(|sizes| Case { dual: false, entries: vec![], max_nodes: None, steps: vec![], wire: None, pipe: Some(Pipe { sizes }) });
+        prop_oneof![60 => ordinary, 2 => big, 1 => wire, 4 => pipe].boxed()
     }
     fn run(case: &Case) -> CaseReport {
         let mut rep = CaseReport::default();
+        if let Some(pc) = &case.pipe {
+            if let Some((s, d)) = run_blocking(run_pipe(pc, &mut rep)) {
+                rep.fail(s, d);
+            }
+            return rep;
+        }
         if let Some(wc) = &case.wire {
             if let Some((s, d)) = run_blocking(run_wire(wc, &mut rep)) {
                 rep.fail(s, d);
@@ -429,7 +566,7 @@ impl Property for C14 {
         rep
     }
     fn rule() -> String {
-        "a real Discv5 service with a scripted handler (IPv4 or dual stack, max_nodes_response default 16 or 1..20; one case in 31: 46..120 with a table of 70..129 records and requests for 5 or 17 distances, i.e. answers of up to ~40 packets) whose table holds 0..59 signed pool records of 100..300 bytes (60% exactly 300 bytes) in the reachable buckets; 1..7 injected requests: FINDNODE with distance lists that are empty / duplicated / unsorted / contain 0, 256, values > 256 (assertion-free) / up to 400 entries / the d,d+1,d-1 lists lookups generate, request ids of 0..8 bytes, requester = a stored node, a stranger, an IPv6 stranger; PING with arbitrary enr_seq from a normal source or source port 0; local record changes in between. Oracle on the HandlerIn::Response values the service emits: N1 id, destination, total = number of packets >= 1; N2 local record iff 0 requested, every other record is the stored record of a table entry at a requested distance, never the requester's, no duplicates, at most max_nodes_response, at least min(eligible, max[-1]); N3 each packet, encoded with the real message codec and wrapped as a message datagram with the real packet codec, is <= 1280 bytes; G1 exactly one PONG with the request id, the current local seq and the observed source ip/port; none for port 0. One case in 63 is a wire-engine companion (real handlers): a peer whose record advertises another ip and port / another port / another ip / nothing than the address it sends from, known to the answering node with its current record, an older one or not at all, sends 1..3 PING / FINDNODE / TALK requests over a loss-free wire: each must reach the answering node's application as coming from the observed address and be answered. Non-trivial = >=4 records of >=280 bytes forcing a split, or distance 0 together with other distances.".into()
+        "a real Discv5 service with a scripted handler (IPv4 or dual stack, max_nodes_response default 16 or 1..20; one case in 31: 46..120 with a table of 70..129 records and requests for 5 or 17 distances, i.e. answers of up to ~40 packets) whose table holds 0..59 signed pool records of 100..300 bytes (60% exactly 300 bytes) in the reachable buckets; 1..7 injected requests: FINDNODE with distance lists that are empty / duplicated / unsorted / contain 0, 256, values > 256 (assertion-free) / up to 400 entries / the d,d+1,d-1 lists lookups generate, request ids of 0..8 bytes, requester = a stored node, a stranger, an IPv6 stranger; PING with arbitrary enr_seq from a normal source or source port 0; local record changes in between. Oracle on the HandlerIn::Response values the service emits: N1 id, destination, total = number of packets >= 1; N2 local record iff 0 requested, every other record is the stored record of a table entry at a requested distance, never the requester's, no duplicates, at most max_nodes_response, at least min(eligible, max[-1]); N3 each packet, encoded with the real message codec and wrapped as a message datagram with the real packet codec, is <= 1280 bytes; G1 exactly one PONG with the request id, the current local seq and the observed source ip/port; none for port 0. Distance lists: one in 11 is 200..1150 repeats of one distance followed by 1..3 others. Four cases in 67 compose service and handler (pipe companion): a real service whose table holds 4..16 records of 100..300 bytes (sizes chosen so that its packing ends packets anywhere up to the bound of 1175 bytes of records) answers a FINDNODE; its NODES packets are handed to a real handler that holds a session with the requester; each must appear on the wire exactly once, as sent, in a datagram of at most 1280 bytes. One case in 67 is a wire-engine companion (real handlers): a peer whose record advertises another ip and port / another port / another ip / nothing than the address it sends from, known to the answering node with its current record, an older one or not at all, sends 1..3 PING / FINDNODE / TALK requests over a loss-free wire: each must reach the answering node's application as coming from the observed address and be answered. Non-trivial = >=4 records of >=280 bytes forcing a split, or distance 0 together with other distances.".into()
     }
     fn assumptions() -> Vec<String> {
         vec![
